@@ -317,8 +317,16 @@ func Walk(v Visitor, node ast.Node) {
 			Walk(v, value)
 		}
 
-	case *ast.Extends:
 	case *ast.Import:
+		// As for Extends and Render, the expanded tree is not visited.
+		if n.Ident != nil {
+			Walk(v, n.Ident)
+		}
+		for _, ident := range n.For {
+			Walk(v, ident)
+		}
+
+	case *ast.Extends:
 	case *ast.Render:
 	// Nothing to do, visiting the expanded tree is done
 	// by the Visit function if necessary.
